@@ -393,7 +393,7 @@ def gen_queue_world(rng: random.Random, n_steps: int, variant: Optional[str] = N
     return w
 
 
-def gen_fleet_world(rng: random.Random, n_steps: int) -> Dict[str, Any]:
+def gen_fleet_world(rng: random.Random, n_steps: int, variant: Optional[str] = None) -> Dict[str, Any]:
     """two fleets; vehicles in none / one / both; stations, bases (each with its own station) and requests in none / one
     fleet, all within two cells so that every kind of interaction is attempted often"""
     dt = 60
@@ -414,10 +414,17 @@ def gen_fleet_world(rng: random.Random, n_steps: int) -> Dict[str, Any]:
         member("stations", f"bs{k+1}", [[], [], ["fa"], ["fb"]])
         bases.append({"id": f"b{k+1}", "lat": c[0], "lon": c[1], "station": f"bs{k+1}", "stalls": 3})
         member("bases", f"b{k+1}", [[], ["fa"], ["fb"], ["fa"], ["fb"]])
-    for k in range(rng.randint(4, 6)):
+    low = variant == "lowcharge"
+    for k in range(rng.randint(7, 9) if low else rng.randint(4, 6)):
         c = cells[rng.randrange(2)]
-        vehicles.append({"id": f"v{k+1}", "lat": c[0], "lon": c[1], "mech": "leaf_50", "soc": rng.choice([0.3, 0.6, 0.8])})
+        vehicles.append({"id": f"v{k+1}", "lat": c[0], "lon": c[1], "mech": "leaf_50",
+                         "soc": rng.choice([0.03, 0.045, 0.05, 0.055, 0.0575, 0.058, 0.3]) if low else rng.choice([0.3, 0.6, 0.8])})
         member("vehicles", f"v{k+1}", [[], ["fa"], ["fb"], ["fa", "fb"]])
+    if low:
+        # every station belongs to fleet fa: the vehicles of fb alone (and of no fleet) that need a charge have nowhere to go,
+        # several vehicles reach the charging threshold in the same step
+        fl["fa"]["stations"] = [s_["id"] for s_ in stations]
+        fl["fb"]["stations"] = []
     for k in range(rng.randint(6, 14)):
         o, d = cells[rng.randrange(2)], cells[rng.randrange(2)]
         requests.append({"id": f"r{k+1:02d}", "o": o, "d": d, "dep": rng.randrange(0, dt * n_steps * 3 // 4), "pax": 1,
@@ -900,7 +907,7 @@ def gen_world(rng: random.Random, *, n_steps: int = 40, fleets: Optional[bool] =
     if focus == "inputs":
         return gen_input_world(rng, n_steps, dt)
     if focus == "fleet":
-        return gen_fleet_world(rng, n_steps)
+        return gen_fleet_world(rng, n_steps, variant)
     if focus == "dispatch":
         return gen_dispatch_world(rng, n_steps)
     if focus == "match":
